@@ -159,5 +159,8 @@ pub(crate) fn resolve_partial<Fd: AsFd>(
         }
     }
 
-    unreachable!("partial_ancestors should include root path which must be resolvable");
+    // partial_ancestors() ends with the root path itself, which can always be
+    // resolved -- unless the lookup failed for a reason that has nothing to do
+    // with the path (EMFILE, ENOMEM, EAGAIN storms, ...). Report that error.
+    Err(last_error)
 }
